@@ -23,6 +23,8 @@ Record(c, e) ==
         rs0 == Carry(c, e, "rs")
         top == IsRestart(e)
     IN [fids |-> e.fids, bases |-> e.bases, slots |-> e.slots, k |-> e.k, oc |-> e.oc,
+        \* an unwinding happened and the handler has not executed an instruction yet
+        uw |-> (e.k = "U" \/ (e.k = "I" /\ e.oc \in ThrowOps) \/ (c # None /\ c.uw /\ e.k \notin {"B", "F"})),
         rn |-> IF top THEN [rn0 EXCEPT ![n] = rn0[n] + 1] ELSE rn0,
         rs |-> IF top THEN [rs0 EXCEPT ![n] = Len(e.slots) - e.bases[n]] ELSE rs0]
 
@@ -32,6 +34,14 @@ Why(c, e) ==
     IN IF ~Partition(d) THEN "Partition"
        ELSE IF c = None \/ e.k = "X" THEN ""
        ELSE IF ~NoStealingU(c, d, unwind) THEN "NoStealing"
+       \* a handler block starts on an empty region: what the failed block had pending is not the handler's to
+       \* consume or to yield (a finished block contributes the value of ITS last statement, or nil). Judged
+       \* when the handler's first instruction is about to execute, or - an empty handler - when it completes.
+       \* (a nil there - the result slot of the throw operator itself - yields what an empty block yields)
+       \* Only the top slot matters: it is what a handler without a value of its own would yield; anything below
+       \* is discarded with the region (e.g. after a throw from a nested call the operator's nil result lies on top).
+       ELSE IF c.uw /\ e.k = "B" /\ Top(d) > 0 /\ Len(d.slots) > d.bases[Top(d)] /\ Last(d.slots) # NilS THEN "OneValue-handler-start"
+       ELSE IF c.uw /\ e.k = "F" /\ Len(d.slots) > 0 /\ Last(d.slots) # NilS THEN "OneValue-handler-start"
        ELSE IF e.k = "F" /\ ~OneValueCount(c, d) THEN "OneValue"
        ELSE IF e.k \in {"I", "F"} /\ ~unwind /\ ~OneValueLoose(c, d) THEN "OneValue"
        ELSE IF e.k = "I" /\ e.oc = "ENDSTATEMENT" /\ ~StatementClean(d) THEN "StatementClean"
